@@ -49,6 +49,11 @@ def classify(e, mon, j):
                 cls = "bf_gives_up_walking_predecessors"
             elif r["has_dist"] and best is not None and r["skip"]:
                 cls = "dfs_only_gives_up_walking_predecessors"
+            elif not r["has_dist"] and best is not None and r["skip"]:
+                # DFS only: a token first reached on a cheap path AT the depth limit is not expanded again when it
+                # is reached later on a shallower but not cheaper path (pruned by `d >= best`), so the tokens
+                # behind it are never reached at all
+                cls = "dfs_only_prunes_shallower_visit"
             else:
                 cls = "nothing_recommended"
         else:
